@@ -59,6 +59,13 @@ def run(ctx: Ctx) -> None:
     ctx.floor("vocab.gates", 6)
 
 
+def _loop_item(lp: ast.For) -> str:
+    """the name that holds the item of the sequence a loop walks: `for x in S` -> x, `for i, x in enumerate(S)` -> x"""
+    if isinstance(lp.target, ast.Tuple) and len(lp.target.elts) == 2 and isinstance(lp.iter, ast.Call) and call_name(lp.iter) == "enumerate":
+        return norm(lp.target.elts[1])
+    return norm(lp.target)
+
+
 def rule_alignment(ctx: Ctx) -> None:
     repo = ctx.repo
     m = repo.module(ATS)
@@ -127,9 +134,20 @@ def rule_alignment(ctx: Ctx) -> None:
     outer = [n for n in ast.walk(fn) if isinstance(n, ast.For) and any(x is loop for x in ast.walk(n)) and n is not loop]
     if not outer:
         raise AnalysisError("solve(): outer iso-graph loop not found")
-    iso = norm(outer[0].target)
+    iso = _loop_item(outer[0])
     rm = [c for c in calls_in(outer[0]) if call_attr(c) == "get_relabel_map"]
-    if len(rm) == 1 and [norm(a) for a in rm[0].args] == ["self.target_graph", iso]:
+    # every binding of the map inside the loop is that call: a shortcut on some path (pairing the nodes by position for "the first
+    # isomorph") bypasses the matcher exactly when the isomorphs were re-ordered
+    other = []
+    if len(rm) == 1 and isinstance(parent(rm[0]), ast.Assign) and isinstance(parent(rm[0]).targets[0], ast.Name):
+        mv = parent(rm[0]).targets[0].id
+        other = [a for a in ast.walk(outer[0]) if isinstance(a, ast.Assign) and any(isinstance(t, ast.Name) and t.id == mv for t in a.targets) and a is not parent(rm[0])]
+    if other:
+        ctx.fail("flow.exactly-once", m, other[0],
+                 f"inside the iso-graph loop the relabel map is also bound to `{short(other[0].value, 70)}`, not only to get_relabel_map(self.target_graph, {iso}): "
+                 f"on that path the map does not come from the graph matcher (iso_finder re-orders its isomorphs when sort_emit is on, so 'the first "
+                 f"one is the target itself' does not hold)", func="AlternateTargetSolver.solve", construct="solve: relabel map bound without the matcher")
+    elif len(rm) == 1 and [norm(a) for a in rm[0].args] == ["self.target_graph", iso]:
         ctx.ok("flow.exactly-once", m, rm[0], what="relabel map of this iteration's iso graph")
     else:
         ctx.fail("flow.exactly-once", m, rm[0] if rm else outer[0],
@@ -188,7 +206,7 @@ def rule_conversion_guard(ctx: Ctx) -> None:
     if loop is None:
         raise AnalysisError("solve(): the loop that calls lc_check was not found")
     outer = [n for n in ast.walk(fn) if isinstance(n, ast.For) and n is not loop and any(x is loop for x in ast.walk(n))]
-    iso = norm(outer[0].target) if outer else None
+    iso = _loop_item(outer[0]) if outer else None
     if iso is None:
         raise AnalysisError("solve(): outer iso-graph loop not found")
     adds = [c for c in calls_in(loop) if call_attr(c) == "add" and isinstance(parent(c), ast.Expr) and isinstance(parent(parent(c)), ast.For)]
@@ -492,6 +510,7 @@ def _edit_dedup_helper(src: str) -> str:
 
 
 KNOCKOUTS = [
+    Knockout("first-isomorph-map-by-position", ATS, sub_once("            rmap = get_relabel_map(self.target_graph, iso_graph)\n", "            rmap = get_relabel_map(self.target_graph, iso_graph)\n            if iso_graph is iso_graphs[0]:\n                rmap = {-1: \"self\", **dict(zip(self.target_graph.nodes(), iso_graph.nodes()))}\n"), "flow.exactly-once", "without the matcher"),
     Knockout("dedup-skips-new-groups", ATS, sub_once("            if not already_found:\n                s = {i}", "            if already_found:\n                s = {i}"), "dedup.model", "survive although"),
     Knockout("dedup-found-in-any-other-group", ATS, sub_once("                if i in s:\n                    already_found = True", "                if i not in s:\n                    already_found = True"), "dedup.model", "duplicate filter"),
     Knockout("dedup-deletes-ascending", ATS, sub_once("        for index in redundant_indices[::-1]:", "        for index in redundant_indices:"), "dedup.model", "duplicate filter"),
